@@ -112,3 +112,11 @@ Fixpoint read_many (n : nat) (msize : N) (rdbuf : bytes) (s : bytes) : list read
   | O => []
   | S n' => let '(o, b, r) := read_fcall msize rdbuf s in o :: read_many n' msize b r
   end.
+
+(* the same, also returning the buffer and the unread stream (for a SetMSize between two reads) *)
+Fixpoint read_many_st (n : nat) (msize : N) (rdbuf : bytes) (s : bytes) : list read_out * bytes * bytes :=
+  match n with
+  | O => ([], rdbuf, s)
+  | S n' => let '(o, b, r) := read_fcall msize rdbuf s in
+            let '(os, b', r') := read_many_st n' msize b r in (o :: os, b', r')
+  end.
